@@ -324,6 +324,13 @@ class Origins:
     def of_place(self, place, depth=None):
         depth = self.depth if depth is None else depth
         pr = tuple(p for p in place.pr if p != '*')
+        if place.b == 1 and pr and self.fn.kind == 'Closure':
+            # captured variables: name the environment field after the captured variable
+            for uv in self.fn.upvars:
+                up = tuple(p for p in uv['p']['pr'] if p != '*')
+                if uv['p']['b'] == 1 and pr[:len(up)] == up:
+                    pr = ('.' + uv['name'],) + pr[len(up):]
+                    break
         res = []
         for o in self.of_local(place.b, depth):
             res.append(self._apply(o, pr))
